@@ -14,6 +14,17 @@ ASSUMPTIONS = ["elapsed time is simulated by shifting the public time-stamp fiel
                "chrono num_seconds truncates toward zero"]
 
 
+SENT12 = 0x123456
+
+
+def sentinel12(g):
+    return g.f_df17(SENT12, me_ident(4, 3, [ia5_code(c) for c in "SENTINEL"]))
+
+
+def skip_case(parts, impl, model):
+    return parts[1] == "T"
+
+
 def filler(g, n, pool):
     r = g.r
     return [g.any_frame(r.choice(pool)) for _ in range(n)]
@@ -52,6 +63,24 @@ def gen(seed, tier):
             else:
                 segs.append(seg(t, filler(g, r.randint(5, 25), others) + [g.any_frame(target)] + filler(g, r.randint(0, 14), others)))
         cases.append(H("C12-%d" % i, o, segs))
+    # the cadence does not depend on the size of the table: dozens of aircraft heard once, silence beyond the limit, then one
+    # aircraft sending 12 frames in a fresh reader run -- only that one remains
+    for i in range(4 if tier == "quick" else 30):
+        nrows = r.choice([22, 30, 41, 64, 100])
+        many = [(0x300000 + 7 * k + r.randint(0, 6)) for k in range(nrows)]
+        b = r.choice(ICAOS)
+        o = {"d": 5}
+        if i % 2:
+            o["U"] = 1
+        segs = [seg(0, [g.f_df11(a) for a in many]), seg(10000, [g.f_df11(b) for _ in range(r.choice([12, 13, 23]))])]
+        cases.append(H("C12-big%d" % i, o, segs))
+    # real time on a TCP feed: 22 aircraft, 3 s of silence (--delete-after 1), then 11 frames of one aircraft on the same
+    # connection: the sweep at the 23rd frame measures ages at THAT frame's arrival (judged by the oracle alone: the model
+    # of the TCP session has no clock)
+    many = [(0x310000 + 5 * k) for k in range(22)]
+    b = 0x4B1234
+    body = ("\n".join(g.f_df11(a) for a in many) + "\n||" + "\n".join(g.f_df11(b) for _ in range(11)) + "\n").encode()
+    cases.append(("C12-tcp", "T", opts_str({"i": "x", "u": -1, "o": "x", "d": 1}), ";".join([blob(9, body), seg(0, [sentinel12(g)])])))
     # the sweep cadence with the display running (the CLI refreshing after every frame, or on its timer): with
     # --delete-after 0 (or negative) every row is stale at once, so the table shown at the end holds exactly the aircraft
     # heard after the last sweep -- the 12th applied frame and every 11th after it
@@ -68,6 +97,15 @@ def gen(seed, tier):
 def oracle(parts, outcome, obs):
     if outcome.replace("+slow", "") != "ok":
         return "outcome %s" % outcome
+    if parts[1] == "T":
+        if outcome == "harness-error":
+            return None
+        d = dict(kv.split("=", 1) for kv in obs.split(";"))
+        got = sorted(k for k in d["keys"].split(",") if k)
+        want = sorted(["4B1234", "%06X" % SENT12])
+        if got != want:
+            return "TCP feed with 3 s of silence (--delete-after 1): table %s after the session, expected %s (the silent aircraft are removed at the sweep of the 23rd frame)" % (got, want)
+        return None
     if parts[1] == "C":
         from props.common import frames_of, rows_of_frame
         applied = []
